@@ -4,7 +4,7 @@ package main
 
 func registry() map[string]*Rule {
 	rules := []*Rule{
-		{Name: "TX1", Floor: 6, Run: ruleTX1, Doc: "every transaction opener tests Begin's error and defers Rollback on the same transaction value so that the defer dominates every other use and every exit"},
+		{Name: "TX1", Floor: 4, Run: ruleTX1, Doc: "every transaction opener tests Begin's error and defers Rollback on the same transaction value so that the defer dominates every other use and every exit"},
 		{Name: "TX2", Floor: 6, Run: ruleTX2, Doc: "in a write-transaction opener, every return that a store write may precede returns tx.Commit() itself or a provably non-nil error; nothing uses the transaction after Commit"},
 		{Name: "TX3", Floor: 8, Run: ruleTX3, Doc: "every exported operation opens at most one write transaction on any path, never in a loop, and never while holding another"},
 		{Name: "TX4", Floor: 6, Run: ruleTX4, Doc: "every transaction reachable from a public read operation is Begin(false), or no Commit is reachable from that operation"},
@@ -30,7 +30,7 @@ func registry() map[string]*Rule {
 		{Name: "PLAN1", Floor: 2, Run: rulePLAN1, Doc: "every candidate an input node emits is guarded by filter == nil || filter.Satisfy(doc) on the same document, and every input node is built with filter = Criteria() of the query being planned"},
 		{Name: "PLAN2", Floor: 1, Run: rulePLAN2, Doc: "Range.Intersect is reached only where the visited node is known to be LogicalAnd; a range visitor returns no range for a non-conjunction"},
 		{Name: "PLAN3", Floor: 3, Run: rulePLAN3, Doc: "the negation push-down never returns an unvisited child, and the range visitor derives nothing under Not"},
-		{Name: "PLAN4", Floor: 2, Run: rulePLAN4, Doc: "in the plan builder no SetNext edge leads from the skip/limit node to a sort node or out of the consumer node"},
+		{Name: "PLAN4", Floor: 1, Run: rulePLAN4, Doc: "in the plan builder no SetNext edge leads from the skip/limit node to a sort node or out of the consumer node"},
 		{Name: "PLAN5", Floor: 2, Run: rulePLAN5, Doc: "every value stored into Query.sortOpts is nil, copied from a query, or built only from literals with Direction = +-1"},
 		{Name: "PLAN6", Floor: 6, Run: rulePLAN6, Doc: "the negation table (Not over comparison -> complement) and the comparison->range table equal the mathematically fixed tables, row by row"},
 		{Name: "CMP1", Floor: 30, Run: ruleCMP1, Doc: "TypeId, evaluated by type-tag abstract interpretation for the nine canonical types, yields single-digit ranks in the order nil < number < string < object < array < bool < time (numbers share one rank)"},
@@ -60,6 +60,10 @@ func registry() map[string]*Rule {
 		{Name: "IMP1", Floor: 1, Run: ruleIMP1, Doc: "ImportCollection converts decoded JSON objects with NewDocumentOf (verbatim keys), never through Document.Set/SetAll (dotted-path semantics)"},
 		{Name: "BULK1", Floor: 1, Run: ruleBULK1, Doc: "a function that scans and then mutates destructively scans exactly the query it was given (criteria replacement by Where only)"},
 		{Name: "CNT1", Floor: 0, Run: ruleCNT1, Doc: "where Count is answered from the stored counter, the limit is compared with the counter after the skip has been subtracted"},
+		{Name: "PANIC2", Floor: 0, Run: rulePANIC2, Doc: "no ==/!= between two interface{} values that may both hold document values (arrays/objects are uncomparable: run-time panic)"},
+		{Name: "NORM1", Floor: 1, Run: ruleNORM1, Doc: "Where(x) in the root package receives only the asserted result of the literal-normalising visitor applied to the query's own Criteria()"},
+		{Name: "RNG1", Floor: 4, Run: ruleRNG1, Doc: "a value stored into a field of index.Range is computed only from the same field of other ranges (including short-circuit conditions)"},
+		{Name: "ADP5", Floor: 1, Run: ruleADP5, Doc: "a delete-while-iterating scan (Index.Drop) is not preceded by another store write in the same function/transaction (bbolt and badger diverge otherwise)"},
 	}
 	m := map[string]*Rule{}
 	for _, r := range rules {
@@ -87,7 +91,7 @@ func propertyTable() map[string]*Property {
 	return map[string]*Property{
 		"C01": {
 			Technique:   tSSA + "SSA guard/dominance analysis of the scan paths, key-template abstract interpretation, type-tag abstract interpretation of the comparator, operator/table extraction",
-			Rules:       []string{"PLAN1", "KEY1", "KEY2", "CMP1", "CMP2", "CMP3", "CMP4", "OPS1", "TX2~^DB\\.(Insert|UpdateById|UpdateFunc|Delete|DeleteById|DropCollection|CreateCollectionByQuery|ImportCollection)/", "ID1", "IDX6"},
+			Rules:       []string{"PLAN1", "KEY1", "KEY2", "CMP1", "CMP2", "CMP3", "CMP4", "OPS1", "TX2~^DB\\.(Insert|UpdateById|UpdateFunc|Delete|DeleteById|DropCollection|CreateCollectionByQuery|ImportCollection)/", "ID1", "IDX6", "NORM1"},
 			Explanation: "Decides structural clauses of C01 on every path of the current source: every candidate from every scan path is re-filtered with the query's full criteria (PLAN1); no scan can leave its own key family, so no document is yielded through a sibling's keys (KEY1, KEY2); the comparator behind the criteria ranks types in the documented order (CMP1), has no wrap-around arithmetic (CMP2), dispatches every pair of canonical dynamic types to a return (CMP3), only ever sees normalised operands (CMP4); every operator that can be constructed is evaluated (OPS1); records are replaced whole, under their own id, inside one committed transaction (TX2, ID1).",
 			NotDecided:  "That Criteria.Satisfy computes the documented truth value for every document and criteria tree (absent-field semantics, In/Contains/Like value logic); history dependence. These quantify over values and histories.",
 			Assumptions: commonAssumptions,
@@ -171,35 +175,35 @@ func propertyTable() map[string]*Property {
 		},
 		"C13": {
 			Technique:   tSSA + "key-template abstract interpretation (family disjointness, delimiter-terminated bounds), guard ordering, adapter not-found mapping",
-			Rules:       []string{"KEY1~(iteratePrefix|ListCollections)", "KEY2", "KEY3", "GUARD1", "ADP1", "TX2~^DB\\.(CreateCollection|DropCollection|CreateCollectionByQuery|ImportCollection)/"},
+			Rules:       []string{"KEY1~(iteratePrefix|ListCollections)", "KEY2", "KEY3", "GUARD1", "ADP1", "TX2~^DB\\.(CreateCollection|DropCollection|CreateCollectionByQuery|ImportCollection)/", "TX3~^DB\\.(CreateCollection|DropCollection|CreateCollectionByQuery|ImportCollection)/"},
 			Explanation: "Decides structural clauses of C13: catalog keys, document keys and index keys are pairwise distinct layouts, every name is ';'-terminated inside a key, and every scan bound covers exactly one layout and ends in a delimiter - so collections whose names are prefixes of each other, and documents sharing ids, cannot see each other's keys (KEY1-KEY3); every operation looks the collection up in the catalog before any other store access (GUARD1) and a missing key is (nil, nil) on both backends (ADP1); nothing is committed on the error paths (TX2).",
 			NotDecided:  "Catalog contents over histories of create/drop.",
 			Assumptions: commonAssumptions,
 		},
 		"C14": {
 			Technique:   tSSA + "key-template abstract interpretation of the per-index prefix, nil-dereference guard analysis, guard ordering",
-			Rules:       []string{"KEY1~^index\\.", "KEY2", "NIL1~(listIndexes|hasIndex|createIndex|DropIndex)", "GUARD1~(createIndex|DropIndex|HasIndex|ListIndexes)", "IDX5~(index build|drop entries)", "VIS1~IndexSelectVisitor"},
+			Rules:       []string{"KEY1~^index\\.", "KEY2", "NIL1~(listIndexes|hasIndex|createIndex|DropIndex)", "GUARD1~(createIndex|DropIndex|HasIndex|ListIndexes)", "IDX5~(index build|drop entries|drops the requested)", "VIS1~IndexSelectVisitor"},
 			Explanation: "Decides structural clauses of C14: the per-index prefix used by iteration and drop ends in the separator, so indexes on x / xy and on n / n.a never read or delete each other's entries (KEY1, KEY2); ListIndexes/HasIndex on a missing collection report the error without dereferencing the absent metadata (NIL1, GUARD1); index creation and drop update entries and catalog in the required order (IDX5); the index-selection visitor satisfies its callers' unchecked assertions (VIS1).",
 			NotDecided:  "Catalog list arithmetic (swap-remove in DropIndex) over histories.",
 			Assumptions: commonAssumptions,
 		},
 		"C15": {
 			Technique:   tSSA + "sibling cross-check of the store adapters (not-found mapping, cursor validity), error rules inside adapters",
-			Rules:       []string{"ADP1", "ADP2", "ADP3", "ADP4", "ERR1~^store/", "ERR2~^store/"},
+			Rules:       []string{"ADP1", "ADP2", "ADP3", "ADP4", "ADP5", "ERR1~^store/", "ERR2~^store/"},
 			Explanation: "Decides structural clauses of C15: both Tx.Get implementations map absence to (nil, nil) (ADP1); no Cursor implementation makes position validity depend on the value, so keys with empty values are visible on both backends (ADP2); only the adapter packages call the backend APIs (ADP3); keys and values handed to the store are freshly allocated, never a reused scratch buffer, which badger (retains the slice until Commit) and bbolt (copies) treat differently (ADP4); adapters drop or convert no backend error other than the not-found mapping (ERR1, ERR2).",
 			NotDecided:  "Everything else: equality of the results of identical histories on two backends and the seek contract for all key sets are runtime comparisons (DESIGN §6 lists a reverse-seek defect this family does not reach).",
 			Assumptions: commonAssumptions,
 		},
 		"C16": {
 			Technique:   tSSA + "taint-style dataflow of Compare operands, operator constant tables, builder/evaluator type agreement",
-			Rules:       []string{"CMP4", "OPS1", "OPS2", "OPS3", "CMP5"},
+			Rules:       []string{"CMP4", "OPS1", "OPS2", "OPS3", "CMP5", "NORM1"},
 			Explanation: "Decides structural clauses of C16: every operand of the comparison is a document value or has passed through Normalize, which is the only mechanism behind 'a literal yields the same result whatever Go numeric type it was supplied as' (CMP4, CMP5); every constructed operator has an evaluation case and routed operators are covered by the inner switch (OPS1); the Go type each builder stores is the type the evaluator asserts (OPS2); Neq and NotExists are defined as Not() of Eq and Exists on the same arguments (OPS3).",
 			NotDecided:  "The truth tables of And/Or/Not, In and Contains themselves (statements about values; checking their shape would be a frozen-fragment proxy, so it is not done).",
 			Assumptions: commonAssumptions,
 		},
 		"C17": {
 			Technique:   tSSA + "key-template analysis of seek targets and scan bounds, error and callback-loop rules in the range index",
-			Rules:       []string{"KEY1~^index\\.", "KEY2", "KEY3", "KEY5", "ERR1~^index\\.", "ERR3~^index\\."},
+			Rules:       []string{"KEY1~^index\\.", "KEY2", "KEY3", "KEY5", "RNG1", "ERR1~^index\\.", "ERR3~^index\\."},
 			Explanation: "Decides structural clauses of C17: a range scan or full iteration is bounded by a prefix that covers exactly the index's own entries, add and remove use one layout (KEY1-KEY3); specialised on reverse = true, every seek target carries the 0xFF upper sentinel, without which an inclusive upper bound loses its entries in descending scans (KEY5); seek and item errors are propagated (ERR1); the scan stops when the consumer asks and the stop does not escape (ERR3).",
 			NotDecided:  "Bound arithmetic: inclusive/exclusive ends, emptiness and intersection of ranges over values, order of the yielded ids.",
 			Assumptions: commonAssumptions,
@@ -220,7 +224,7 @@ func propertyTable() map[string]*Property {
 		},
 		"C20": {
 			Technique:   tSSA + "unchecked-assertion/visitor-return agreement, nil-dereference guards, type-tag abstract interpretation for dispatch panics, explicit panic inventory, transaction leak rules",
-			Rules:       []string{"VIS1", "NIL1", "NIL2", "PLAN8", "OPS1", "OPS2", "CMP3", "CMP4", "CMP5", "PANIC1", "TX1", "TX3~no-nested-transaction"},
+			Rules:       []string{"VIS1", "NIL1", "NIL2", "PLAN8", "OPS1", "OPS2", "CMP3", "CMP4", "CMP5", "PANIC1", "PANIC2", "TX1", "TX3~no-nested-transaction"},
 			Explanation: "Decides structural clauses of C20: no visitor returns a value its callers' unchecked assertions reject (VIS1); no (nil, err) result is dereferenced before the error test (NIL1); no constructible operator falls into a panic or a mismatching assertion (OPS1, OPS2); the type dispatch of Compare/OrderedCode reaches no failing assertion for any pair of canonical types and only normalised operands arrive (CMP3, CMP4, CMP5); every explicit panic site is tied to the rule that makes it unreachable (PANIC1); no transaction is leaked or nested, the two ways to block for ever (TX1, TX3).",
 			NotDecided:  "Absence of every runtime panic (index/slice bounds inside dependencies, the regexp engine, a null element in an import file), and behaviour after Close on custom stores.",
 			Assumptions: commonAssumptions,
